@@ -377,6 +377,8 @@ class annotate(object):
         func.__signature__ = sig
         for pok in reversed(poks):
             pok._prepare()
+            # wrappers already bound to instances advertise the old signature
+            pok.insts.clear()
         return obj
 
     def __repr__(self):
